@@ -80,18 +80,24 @@ func (e *exec) Exec(op string) string {
 // input in the simulation just re-run by `sim` (recorded by csim's trace).  The op's event description (taken from the
 // generator's dry run) must be the one recorded now: the simulation is deterministic.
 func (e *exec) nodeStep(op string, toks []string) string {
-	if e.last == nil {
+	if e.next == nil {
+		e.next = map[int]int{}
+	}
+	return NodeStep(e.last, e.next, op, toks)
+}
+
+// NodeStep answers an `ns` op from the trace of the simulation `last` (shared with the C02 harness); next is the per-node index of
+// the next expected step.
+func NodeStep(last *csim.SimResult, next map[int]int, op string, toks []string) string {
+	if last == nil {
 		return "nosim"
 	}
 	node := int(hx.ArgI(toks, "node", -1))
 	k := int(hx.ArgI(toks, "k", -1))
-	if e.next == nil {
-		e.next = map[int]int{}
-	}
-	if k != e.next[node] {
+	if k != next[node] {
 		return "skip"
 	}
-	tr := e.last.Net.Trace[node]
+	tr := last.Net.Trace[node]
 	if k < 0 || k >= len(tr) {
 		return "no-step"
 	}
@@ -99,8 +105,42 @@ func (e *exec) nodeStep(op string, toks []string) string {
 	if i < 0 || op[i+4:] != tr[k].Ev {
 		return "ev-mismatch now=" + strings.ReplaceAll(tr[k].Ev, " ", "_")
 	}
-	e.next[node] = k + 1
+	next[node] = k + 1
 	return tr[k].Ans
+}
+
+// TraceOps renders the step-level ops of a traced simulation and counts the distribution of event kinds and transitions.
+func TraceOps(g *hx.Gen, r *csim.SimResult, maxPerNode int) []string {
+	for _, tr := range r.Net.Trace {
+		for k, te := range tr {
+			if k >= maxPerNode {
+				break
+			}
+			g.Count("ns-ev:" + te.Kind())
+			if strings.Contains(te.Ev, " vok=0") || strings.Contains(te.Ev, " cok=0") {
+				g.Count("ns-part-of-invalid-block")
+			}
+			if strings.Contains(te.Ev, " dec=0") {
+				g.Count("ns-part-of-undecodable-block")
+			}
+			if te.Kind() == "vote" && strings.Contains(te.Ev, " h=0 ") {
+				g.Count("ns-precommit-for-height-0")
+			}
+			if k > 0 {
+				g.Count("ns-trans:" + csim.Transition(tr[k-1], te))
+				if csim.FutureTimeout(tr[k-1], te) {
+					g.Count("ns-timeout-for-a-future-round(WellTimed-violated)")
+				}
+				if csim.OldPrevoteWhileLocked(tr[k-1], te) {
+					g.Count("ns-prevote-of-round<=lockedRound-while-locked-in-later-round")
+				}
+			}
+			if strings.HasPrefix(te.Ans, "panic") {
+				g.Count("ns-panic")
+			}
+		}
+	}
+	return r.Net.TraceLines(maxPerNode)
 }
 
 // Diag is the health line of a simulation; the model's answer is the constant all-zero line (that IS the claim:
@@ -350,30 +390,7 @@ func (P) Generate(g *hx.Gen) {
 		maxPerNode := g.Pick(400, 1000)
 		traced := k < g.Pick(total, 400) // thorough tier: the step-level lines of the first 400 simulations (the op stream stays below ~1 GB)
 		if traced {
-			ops = append(ops, r.Net.TraceLines(maxPerNode)...)
-		}
-		for _, tr := range r.Net.Trace {
-			if !traced {
-				break
-			}
-			for k, te := range tr {
-				if k >= maxPerNode {
-					break
-				}
-				g.Count("ns-ev:" + te.Kind())
-				if k > 0 {
-					g.Count("ns-trans:" + csim.Transition(tr[k-1], te))
-					if csim.FutureTimeout(tr[k-1], te) {
-						g.Count("ns-timeout-for-a-future-round(WellTimed-violated)")
-					}
-					if csim.OldPrevoteWhileLocked(tr[k-1], te) {
-						g.Count("ns-prevote-of-round<=lockedRound-while-locked-in-later-round")
-					}
-				}
-				if strings.HasPrefix(te.Ans, "panic") {
-					g.Count("ns-panic")
-				}
-			}
+			ops = append(ops, TraceOps(g, r, maxPerNode)...)
 		}
 		g.Count("prof:" + prof)
 		g.Count(fmt.Sprintf("n:%d", n))
